@@ -2107,3 +2107,48 @@ def no_use_after_move(ctx, fns, tag):
                       "sees the caller's text" % (f.pq, var["name"], f.text(f.parent.get(bad[0], bad[0]))[:60] if bad else "", f.loc(m)))
     ctx.counters[tag + "_moves_examined"] = n
     return n
+
+
+def cgroup_argument_pieces_taken_verbatim(ctx, tag):
+    """A `cgroup` argument names cgroups by the text between its commas, exactly: PluginArgParser::parseCgroup turns every piece of
+    Util::split(text, ',') into one CgroupPath, unchanged - nothing trims, rewrites or skips a piece.  The ruleset hands each instance's
+    cgroup to its actions as such a text (registerRunnableRulesetForCgroupPath), so a cgroup name the parser 'normalises' (leading or
+    trailing blank) makes the instance's actions target a different cgroup than the one the instance stands for."""
+    P = ctx.prog
+    f = ctx.use(ctx.fn1("Oomd::PluginArgParser::parseCgroup"))
+    ls = [l for l in loops(f) if l["stmt"] is not None and f.nodes[l["stmt"]]["k"] in ("rangefor", "for", "while")]
+    if len(ls) != 1:
+        ctx.broken(tag + ":cgroup-argument-pieces-verbatim", "anchor", f.loc(), "expected one loop over the pieces in parseCgroup, found %d" % len(ls))
+        return
+    L = ls[0]
+    body = set()
+    for bn in body_nodes(f, L):
+        body |= set(f.walk(bn))
+    adds = [i for i in f.calls("emplace", "insert", "emplace_back", "push_back", "emplace_hint") if i in body]
+    ctx.counters[tag + "_cgroup_piece_adds"] = len(adds)
+    ctx.floor(tag + "_cgroup_piece_adds", 1, "insertion of a CgroupPath per piece in parseCgroup")
+    per_iter_once(ctx, f, L, adds, tag + ":cgroup-argument-pieces-verbatim:every-piece-becomes-a-path", "the insertion of the piece's CgroupPath")
+    st = f.nodes[L["stmt"]]
+    lv = None
+    if st["k"] == "rangefor":
+        lv = next((v_ for d_ in f.walk(L["stmt"]) if f.nodes[d_]["k"] == "decl" for v_ in f.nodes[d_].get("vars", []) if v_.get("name") and "range" not in v_["name"] and "begin" not in v_["name"] and "end" not in v_["name"]), None)
+    if lv is None:
+        ctx.ok(tag + ":cgroup-argument-pieces-verbatim:piece-unchanged", "who-may-write (loop variable)", f.loc(L["stmt"]), "not a range-for: the per-iteration rule stands alone")
+        return
+    touched = []
+    for i in body:
+        nd = f.nodes[i]
+        if nd["k"] != "call" or i in adds:
+            continue
+        ops = [a for a in nd.get("args", [])] + ([nd["recv"]] if "recv" in nd else [])
+        for a in ops:
+            t = f.nodes[f.strip(a)]
+            if t["k"] == "ref" and t.get("decl") == lv.get("decl") and not nd.get("cconst") and not re.match(r"^(size|length|empty|c_str|data|begin|end|front|back|at|operator\[\]|find|compare|substr|starts_with|ends_with)$", nd.get("cname") or ""):
+                if (nd.get("callee") or "").endswith("CgroupPath::CgroupPath"):
+                    continue
+                touched.append(i)
+    ctx.check(not touched and "const" in (lv.get("type") or "") or not touched, tag + ":cgroup-argument-pieces-verbatim:piece-unchanged", "who-may-write (loop variable)",
+              f.loc(touched[0]) if touched else f.loc(L["stmt"]), "a piece of the argument reaches CgroupPath as split produced it",
+              "parseCgroup passes the piece through %s before it becomes a CgroupPath: a cgroup whose name the call changes (leading / trailing blanks trimmed) is "
+              "replaced by a different cgroup - the actions of a per-cgroup ruleset instance, which receive their instance's cgroup as this text, then act "
+              "on a sibling" % (f.text(touched[0])[:60] if touched else "?"))
